@@ -16,6 +16,7 @@ import (
 
 	"github.com/sourcenetwork/immutable"
 
+	acpTypes "github.com/sourcenetwork/defradb/acp/types"
 	"github.com/sourcenetwork/defradb/client"
 	"github.com/sourcenetwork/defradb/client/request"
 	"github.com/sourcenetwork/defradb/errors"
@@ -23,6 +24,7 @@ import (
 	coreblock "github.com/sourcenetwork/defradb/internal/core/block"
 	"github.com/sourcenetwork/defradb/internal/datastore"
 	"github.com/sourcenetwork/defradb/internal/db/fetcher"
+	"github.com/sourcenetwork/defradb/internal/db/permission"
 	"github.com/sourcenetwork/defradb/internal/keys"
 	"github.com/sourcenetwork/defradb/internal/planner/mapper"
 )
@@ -235,6 +237,16 @@ func (n *dagScanNode) Next() (bool, error) {
 		return false, err
 	}
 
+	hasAccess, err := n.hasReadAccess(dagBlock)
+	if err != nil {
+		return false, err
+	}
+	if !hasAccess {
+		// commits of a document the requester may not read are skipped, and so are their ancestors
+		n.visitedNodes[currentCid.String()] = true
+		return n.Next()
+	}
+
 	if n.commitSelect.FieldName.HasValue() {
 		if n.commitSelect.FieldName.Value() == request.CompositeFieldName {
 			if dagBlock.Delta.IsComposite() {
@@ -336,6 +348,38 @@ which returns the current dag commit for the stored CRDT value.
 
 All the dagScanNode endpoints use similar structures
 */
+
+// hasReadAccess reports whether the requester may read the document that the given block belongs to.
+func (n *dagScanNode) hasReadAccess(block *coreblock.Block) (bool, error) {
+	docID := block.Delta.GetDocID()
+	if !n.planner.documentACP.HasValue() || docID == nil {
+		return true, nil
+	}
+
+	cols, err := n.planner.db.GetCollections(
+		n.planner.ctx,
+		client.CollectionFetchOptions{
+			IncludeInactive: immutable.Some(true),
+			VersionID:       immutable.Some(block.Delta.GetSchemaVersionID()),
+		},
+	)
+	if err != nil {
+		return false, err
+	}
+	if len(cols) == 0 {
+		// reported by dagBlockToNodeDoc
+		return true, nil
+	}
+
+	return permission.CheckAccessOfDocOnCollectionWithACP(
+		n.planner.ctx,
+		n.planner.identity,
+		n.planner.documentACP.Value(),
+		cols[0],
+		acpTypes.DocumentReadPerm,
+		string(docID),
+	)
+}
 
 func (n *dagScanNode) dagBlockToNodeDoc(block *coreblock.Block) (core.Doc, error) {
 	commit := n.commitSelect.DocumentMapping.NewDoc()
